@@ -24,6 +24,9 @@ FAM = {
     "contract3": (("m",), [("A", ("m", "k", "n")), ("B", ("k", "n"))]),
     "total": ((), [("A", ("m", "k"))]),
     "copy": (("m", "k"), [("A", ("m", "k"))]),
+    # loop-invariant co-iteration: the same lazy A & B is walked once per m
+    "dotscale": (("m",), [("A", ("k",)), ("B", ("k",)), ("C", ("m",))]),
+    "outer3": (("m", "n"), [("A", ("m",)), ("B", ("n",)), ("C", ("n",))]),
 }
 
 
@@ -252,6 +255,7 @@ def run_kernel(case, tensors, flow, counts=None, abort_at=None, expect=None, hoo
     z = Tensor(rank_ids=zr, shape=[shapes[i] for i in zr])
     zroot = z.getRoot()
     cnt = counts if counts is not None else Counts()
+    lazies = {}     # a co-iteration of the same fibers is built once and re-iterated (loop-invariant hoisting)
 
     def level(i, cur, zc, point):
         if i == len(order):
@@ -273,14 +277,19 @@ def run_kernel(case, tensors, flow, counts=None, abort_at=None, expect=None, hoo
         parts = [n for n, _ in ops if cur[n][1] and cur[n][1][0] == v]
         fibers = [cur[n][0] for n in parts]
         is_out = v in out
+        key = (style, tuple(id(f) for f in fibers))
         if len(fibers) == 1:
             src = fibers[0]
+        elif key in lazies:
+            src = lazies[key][0]
         elif style == "and":
             src = fibers[0]
             for f in fibers[1:]:
                 src = src & f
+            lazies[key] = (src, fibers)
         else:
             src = Fiber.intersection(*fibers, style=style)
+            lazies[key] = (src, fibers)
         exp = None
         if expect is not None:
             exp = _expect_loop(expect, v, point, fibers, parts, is_out, style, zc)
